@@ -19,6 +19,8 @@ pub const BOUNDARY_POOL: &[&str] = &[
     "2147483647", "(--2147483647 - 1)", "(--2147483647)", "2147483646", "1e308", "1e999", "(--1e999)", "0.0", "(--0.0)", "5e-324", "1.7976931348623157e308", "31", "32", "33", "(--1)", "(--32)", "0.5", "1.5", "(--0.5)", "4294967296.0",
     "\"\"", "\"é\"", "\"é😀漢\"", "''", "'é'", "'''255 0 1'''", "(0..0)", "(5..1)", "(--3..2)", "(0..2147483647)", "(1.5..2.5)", "(\"abc\" <~ 2..0)", "(\"abc\" <~ --1..5)", "((1 2 3) <~ 3..1)", "((1 2 3) <~ 0..99)",
     "('abc' <~ 2..1)", "((1 2 3) <> (4 5) <~ 4..1)", "(:a.b.c <~ 1..0)", "(((1 2 3) <~ 0..1) <~ 5..0)", "(,)", "((1 2 3) <~ 1.5..2.5)",
+    // non-ASCII text inside other values (conversions and comparisons walk it character by character)
+    "(\"é\" 1)", "(:k = \"漢\")", "(\"é\" <> \"x\")", ":é", "(\"é😀漢\" <~ 1..2)", "('é' 1)",
 ];
 
 fn pool() -> Vec<&'static str> {
